@@ -1,5 +1,5 @@
 (* Model.CopyRun: case type and checkers for Run/cases_C19.v (no proofs). *)
-From DV Require Import Base.Prelude Model.Dag Model.Resolve Model.Core Model.Copy Model.ResolveRun.
+From DV Require Import Base.Prelude Model.Dag Model.Resolve Model.Core Model.Copy Model.ResolveRun Model.Transfer.
 Local Open Scope N_scope.
 
 (* the keys of the source instance are k < 1000; the copy's are k + 1000 *)
@@ -12,7 +12,34 @@ Inductive c19case :=
    by the driver after canonicalisation; eq = they were equal *)
 | COther (typ : N) (flat : bool) (results : list (V * bool))
 (* CopyInstance returned an error or panicked *)
-| CCopyFail (typ : N) (ops : list op) (flat : option V).
+| CCopyFail (typ : N) (ops : list op) (flat : option V)
+(* version-limited transfer (MigrateInstance with a uuid list): ids of the lineage of the last transmitted
+   version, transmitted ids, and per datum: the entries stored in the source (all versions, key order), the
+   entries found in the destination afterwards, and what source and destination answer at each transmitted
+   version; src_changed = some read of the source differed before / after the transfer *)
+| CTransfer (src_changed : bool) (path ts : list nat)
+            (data : list (entries * entries * list (nat * option bytes * option bytes)))
+| CTransferFail (typ : N).
+
+Definition tent_eqb (a b : tent) : bool :=
+  match a, b with
+  | TVal x, TVal y => bytes_eqb x y
+  | TTomb, TTomb => true
+  | _, _ => false
+  end.
+Fixpoint entries_eqb (a b : entries) : bool :=
+  match a, b with
+  | [], [] => true
+  | (v, e) :: r, (w, f) :: s => Nat.eqb v w && tent_eqb e f && entries_eqb r s
+  | _, _ => false
+  end.
+Definition obytes_eqb (a b : option bytes) : bool :=
+  match a, b with
+  | Some x, Some y => bytes_eqb x y
+  | None, None => true
+  | _, _ => false
+  end.
+Definition onp_of (path : list nat) (v : nat) : bool := existsb (Nat.eqb v) path.
 
 Definition state_after (ops : list op) : core := run ops core_init.
 
@@ -34,6 +61,18 @@ Definition model_ok (x : c19case) : bool :=
                       end) reads
   | COther _ _ _ => true
   | CCopyFail _ _ _ => true
+  | CTransfer src_changed path ts data =>
+    negb src_changed && ascending 0 ts &&
+    forallb (fun d => match d with
+                      | (es, ed, reads) =>
+                        asc_es 0 es &&
+                        entries_eqb ed (transfer same_entry (onp_of path) es ts) &&
+                        forallb (fun r => match r with
+                                          | (t, so, dd) => obytes_eqb so (src_read (onp_of path) es t)
+                                                           && obytes_eqb dd (dst_read ed t)
+                                          end) reads
+                      end) data
+  | CTransferFail _ => false
   end.
 
 Definition obs_same_value (a b : obs) : bool :=
@@ -72,6 +111,12 @@ Definition spec_class (x : c19case) : nat :=
       then 0%nat else 4%nat
     | None => 4%nat
     end
+  | CTransfer src_changed path ts data =>
+    (* at every transmitted version the destination answers what the source answers; the source is unchanged *)
+    if src_changed then 6%nat
+    else if forallb (fun d => forallb (fun r => match r with (t, so, dd) => obytes_eqb so dd end) (snd d)) data
+    then 0%nat else 5%nat
+  | CTransferFail _ => 4%nat
   end.
 
 Fixpoint classify_from (i : nat) (l : list c19case) : list (nat * nat) :=
